@@ -4,7 +4,7 @@ re-enters the construct and (where legal) throws again (C11)."""
 import itertools
 
 WRAPPERS = ["loop", "while", "for", "block", "if", "match", "try", "catch", "call", "lambda", "tryl"]
-EXITS = ["break", "continue", "return", "throw", "fatal", "retthrow"]
+EXITS = ["break", "continue", "return", "throw", "fatal", "retthrow", "pthrow"]
 
 
 def legal(ws, x):
@@ -33,6 +33,10 @@ class Builder:
     def exit_stmt(self, x, tag, in_fn=False):
         if x == "return" and in_fn:
             return [f'println("exit {tag}");', "return 7;"]
+        if x == "pthrow":
+            # a throw raised by this very activation while an operand of an enclosing expression is pending: the handler
+            # must drop that operand again (a caller's own pending operands would otherwise be paired with it)
+            return [f'println("exit {tag}");', 'let zz = 100 + { if zero == 0 { throw("boom p"); } 1 };', 'println("not reached", zz);']
         if x == "retthrow":
             # the operand of `return` throws: it is still evaluated inside the enclosing try blocks
             return [f'println("exit {tag}");', "return boom_i();" if in_fn else "return boom_n();"]
